@@ -209,7 +209,8 @@ CLAIMED["C08"] = dict(
          "tank) equals q - leak_rate(h - elev) over a head sweep, and reported leak_demand of real runs equals reported_leak with the "
          "activity decided by the MODEL window [start, end); vm_compute -- the leak-status timeline is on exactly on [start, end) and "
          "both instants are solved steps. remove_leak / reset / rerun cycles must report zero leak demand. The leak term in the mass "
-         "balance is C01's row check (leak variable present iff active).",
+         "balance is C01's row check (leak variable present iff active). Also proved: the discharge is non-decreasing in the pressure everywhere "
+         "(C08_leak_monotone, through the general cubic_spline monotonicity theorem) under a premise coqc proves for every generated leak.",
     ref="DESIGN.md section 5 C08",
     note="Trusted: Coq kernel; stdlib real axioms + classic (Coquelicot); coq-interval; translator chains.py; row dumper; tracing wrapper. "
          "Modelled not verified: binary64 rounding (1e-9 relative). The whole-run window theorem is by exact timeline correspondence plus "
